@@ -119,6 +119,9 @@ def pop_step(draw):
     elif c == "top":
         s["n"] = draw(numarg())
         s["k"] = draw(st.one_of(st.sampled_from(["0", "1", "2", "3", "5", "99"]), st.sampled_from(["0", "1", "2", "99"]), st.sampled_from(BADTOPK)))
+    elif c == "quit":
+        # virtual seconds that pass just before the QUIT (whole seconds can coincide with the mailbox management task)
+        s["wait"] = draw(st.sampled_from([0, 0, 0, 1, 2, 3, 4, 7, 13]))
     elif c == "unknown":
         s["line"] = draw(st.sampled_from(["FOO", "RETR", "DELE", "TOP 1", "XYZZY 1", "LIST 1 2", "UIDL x", "retr", "USER x", "STAT 1"]))
     return s
@@ -841,10 +844,10 @@ def execute(trace) -> CaseResult:
                 pass
             return
         if c == "quit":
-            try:
-                rep = await pcmd(ps, "QUIT", False)
-            except _SessBroken:
-                raise
+            if step.get("wait"):
+                await w.settle(step["wait"])
+                transcript.append({"advance": step["wait"]})
+            rep = await pcmd(ps, "QUIT", False)
             if not rep.ok:
                 v("C20.quit.err", f"session {name}: QUIT answered {rep.line!r}", "")
                 await ps.drv.drop()
